@@ -43,3 +43,64 @@ Print Assumptions C12_source_untouched.
 (* sensitivity: copying a non-full segment entirely instead of up to the captured size yields a
    directory that matches no instant of the run *)
 Definition C12_whole_copy_refuted := BkEx.bk_whole_differs.
+
+(* ---- on the PHYSICAL index (PhysIterBackup.v) ---- *)
+From Pogreb Require Import Base BaseLemmas Crc Bytes Record RecordProofs Flat Index Spec DB DBInv
+  DBLemmas DBProofsOps DBMeta DBProofsCompact DBProofsRecovery DBProofsCrash DBSim DBRun DBSimExact
+  Bucket Phys PhysProofs PhysDB DBSimSessions PhysCrash DBProofsIter DBProofsBackup PhysIterBackup.
+Import ListNotations.
+(* every interleaving of backup micro-steps with writers on the physical-index database: the backup directory is related to the chain and flat ones, opens (recovering) to exactly the snapshot contents with a well-formed physical index; the source is unaffected *)
+Theorem C12_schedule_on_the_physical_index :
+  forall P seed (s10 s1 : (@DB.st phys)) (sp0 sp : (@DB.st pindex)) (sf0 sf : (@DB.st flat)) (m10 : (@DB.mem phys)) copies,
+
+  params_ok P -> gst_rel PR s10 sp0 -> st_rel sp0 sf0 -> Inv P sf0 -> s_mem s10 = Some m10 ->
+  pbsteps P (s10, sp0, sf0, backup_plan m10, []) (s1, sp, sf, [], copies) ->
+  let b1 : (@DB.disk phys) := backup_disk copies in
+  let bp : (@DB.disk pindex) := backup_disk copies in
+  let bf : (@DB.disk flat) := backup_disk copies in
+  (* (i) the backup directory produced from the phys disk: related to the directories the chain and flat
+         databases produce; it stores no index; it is recoverable and holds the log of the snapshot *)
+  gdisk_rel PR b1 bp /\ disk_rel bp bf /\ phys_disk_ok b1 /\
+  DiskOK bf /\ bac_ok bf /\ d_lock bf = true /\ olog bf = olog (s_disk sf0) /\
+  (* (ii) opening it with the phys index: recovery; the rebuilt physical index satisfies PhysInv; the
+          contents are exactly those of the snapshot instant *)
+  (exists s2 sp2 sf2,
+     db_open phys_ops P seed (closed1 b1) = (s2, OOpened true) /\
+     db_open chain_ops P seed (closedp bp) = (sp2, OOpened true) /\
+     db_open flat_ops P seed (closed bf) = (sf2, OOpened true) /\
+     gst_rel PR s2 sp2 /\ st_rel sp2 sf2 /\ Inv P sf2 /\ s_mem sf2 <> None /\
+     phys_open_ok s2 /\
+     answers1 P s2 (abs (s_disk sf0)) /\
+     (forall k, sget (abs (s_disk sf2)) k = sget (abs (s_disk sf0)) k) /\
+     (forall k, db_get phys_ops P k s2 = db_get phys_ops P k s10) /\
+     (forall k, db_has phys_ops P k s2 = db_has phys_ops P k s10) /\
+     db_count phys_ops s2 = db_count phys_ops s10) /\
+  (* (iii) the source: still a good open database, related to its ghosts, reached by the writers' steps *)
+  gst_rel PR s1 sp /\ st_rel sp sf /\ Inv P sf /\ s_mem sf <> None /\ wsteps P sf0 sf /\ phys_open_ok s1.
+Proof. exact C12_schedule_phys. Qed.
+Print Assumptions C12_schedule_on_the_physical_index.
+
+(* db_backup itself *)
+Theorem C12_quiescent_backup_on_the_physical_index :
+  forall P seed (s10 : (@DB.st phys)) (sp0 : (@DB.st pindex)) (sf0 : (@DB.st flat)),
+
+  params_ok P -> gst_rel PR s10 sp0 -> st_rel sp0 sf0 -> Inv P sf0 -> s_mem sf0 <> None ->
+  exists copies,
+    db_backup s10 = Some (backup_disk copies) /\ db_backup sp0 = Some (backup_disk copies) /\
+    db_backup sf0 = Some (backup_disk copies) /\
+    phys_disk_ok (backup_disk copies) /\
+    exists s2 sp2 sf2,
+     db_open phys_ops P seed (closed1 (backup_disk copies)) = (s2, OOpened true) /\
+     db_open chain_ops P seed (closedp (backup_disk copies)) = (sp2, OOpened true) /\
+     db_open flat_ops P seed (closed (backup_disk copies)) = (sf2, OOpened true) /\
+     gst_rel PR s2 sp2 /\ st_rel sp2 sf2 /\ Inv P sf2 /\ s_mem sf2 <> None /\
+     phys_open_ok s2 /\
+     answers1 P s2 (abs (s_disk sf0)) /\
+     (forall k, sget (abs (s_disk sf2)) k = sget (abs (s_disk sf0)) k) /\
+     (forall k, db_get phys_ops P k s2 = db_get phys_ops P k s10) /\
+     (forall k, db_has phys_ops P k s2 = db_has phys_ops P k s10) /\
+     db_count phys_ops s2 = db_count phys_ops s10.
+Proof. exact backup_quiescent_phys. Qed.
+Print Assumptions C12_quiescent_backup_on_the_physical_index.
+
+Definition C12_physical_nonvacuous := PhysIBEx.ex_backup_phys.
